@@ -23,6 +23,10 @@ def run(ctx, rep):
     cg.rule_dfa_config(rep, crate)
     from props import c08
     c08.rule_state_type(rep, crate)
+    # both runtimes hand the automaton the source's own bytes: read(offset) is the byte-level sub-slice at offset, None only at the end
+    from props import rt
+    rt.rule_read_bounds(rep, ctx.mir('ws-default')['logos'], 'ws-default')
+    rt.rule_read_forbid(rep, ctx.mir('logos-forbid')['logos'], 'logos-forbid')
     gen.rules_c01(ctx, rep)
     rep.trusted += ['regex-syntax, regex-automata (NFA/DFA construction, Debug output of dense::DFA)', 'logos-codegen Display of Graph/StateData/ByteClass', 'rustc macro expansion (-Zunpretty=expanded)', 'syn', 'engines/genscan', 'lib/genlib.py', 'lib/autlib.py']
     rep.assumptions += ['the debug feature only adds printing (checked: generated code is token-identical with and without it, rule G21 in the thorough tier)']
